@@ -79,7 +79,10 @@ var fullCtx = func() *hcl.EvalContext {
 			"k":       cty.NullVal(cty.DynamicPseudoType),
 			"v":       cty.SetVal([]cty.Value{cty.StringVal("s1"), cty.StringVal("s2")}),
 			"i":       cty.NumberIntVal(0),
-			"x":       cty.StringVal("x").Mark("m"),
+			// (no marked values: gocty, which gohcl decodes through, documents no support for
+			// marks, and nothing in Havoc marks values; with cty.StringVal("x").Mark("m") here,
+			// gohcl.DecodeExpression and the JSON object-key evaluation panic in AsString)
+			"x":       cty.StringVal("x"),
 			"y":       cty.ListVal([]cty.Value{cty.NumberIntVal(1), cty.NumberIntVal(2), cty.NumberIntVal(3)}),
 			"héllo":   cty.EmptyTupleVal,
 			"名前":      cty.EmptyObjectVal,
